@@ -1,5 +1,6 @@
 """Generators and the reference FIFO (the property's own wording) for C14/C01."""
 import itertools
+import re
 import random
 
 from vlib import hexs, unhexs
@@ -154,12 +155,15 @@ def check_trace(script_lines, out_lines, mode="fifo"):
             ents = w[2:]
             if int(w[1]) != len(ref.q):
                 return "directory holds %s links, reference queue has %d entries" % (w[1], len(ref.q))
-            names = [int(e.split(":")[0]) for e in ents]
+            raw = [e.rsplit(":", 2)[0] for e in ents]
+            if not all(re.fullmatch(r"0|[1-9][0-9]*", x) for x in raw):
+                return "directory holds a link whose name is not a decimal number: %s" % raw
+            names = [int(x) for x in raw]
             if names and names != list(range(names[0], names[0] + len(names))):
                 return "directory is not a gap-free run of numbered links: %s" % names
             for e, (p, m, tm) in zip(ents, ref.q):
-                if int(e.split(":")[2]) != tm:
-                    return "link %s has mtime %s, enqueue time was %d" % (e.split(":")[0], e.split(":")[2], tm)
+                if int(e.rsplit(":", 2)[2]) != tm:
+                    return "link %s has mtime %s, enqueue time was %d" % (e.rsplit(":", 2)[0], e.rsplit(":", 2)[2], tm)
     return None
 
 
